@@ -96,6 +96,7 @@ do_collect(void)
   collect(wblk->enc, iblk->next, &iblk->left);
   wblk->weight -= iblk->left;
   iblk->next += wblk->weight;
+  VERIF_EVENT(VE_COLLECT, wblk->pos.major, wblk->pos.minor, wblk->weight);
 
   if (0u < iblk->left) {
     ++wblk->next.minor;
@@ -192,6 +193,7 @@ do_collect_seq(void)
   sched_lock();
   collect_token = true;
   sched_unlock();
+  VERIF_EVENT(VE_COLLECT, wblk->pos.major, wblk->pos.minor, wblk->weight);
 
   /* Do the hard work. */
   wblk->size = encode(wblk->enc, &wblk->crc);
@@ -217,6 +219,7 @@ do_transmit(void)
 
   wblk = dequeue(trans_q);
   --out_slots;
+  VERIF_EVENT(VE_TRANSMIT, wblk->pos.major, wblk->pos.minor, out_slots);
   sched_unlock();
   VERIF_YIELD(VS_COMPUTE_BEGIN, wblk->pos.major);
 
@@ -245,6 +248,8 @@ do_reorder(void)
   struct work_blk *wblk;
 
   wblk = dequeue(reord_q);
+  VERIF_EVENT(VE_REORDER, wblk->pos.major, wblk->pos.minor,
+              (wblk->next.major << 32) | wblk->next.minor);
   order = wblk->next;
 
   sink_write_buffer(wblk->buffer, wblk->size, wblk->weight);
@@ -275,6 +280,7 @@ on_input_avail(void *buffer, size_t size)
   iblk->left = size;
 
   sched_lock();
+  VERIF_EVENT(VE_INPUT, iblk->pos.major, size, 0);
   enqueue(coll_q, iblk);
   sched_unlock();
 }
@@ -287,6 +293,7 @@ on_write_complete(void *buffer)
 
   sched_lock();
   ++out_slots;
+  VERIF_EVENT(VE_WRITTEN, out_slots, 0, 0);
   sched_unlock();
 }
 
